@@ -300,11 +300,11 @@ PROPS["C02"] = {
     "technique": "model-based stateful property testing (rapid): fault sequences over a 3-replica mini-cluster (real replication/truncation/commit code, harness-driven metadata log), history invariants after every step",
     "level_text": ("fault sequences over a 3-replica partition on three bare servers sharing one in-process NATS server: publish (LEADER/ALL policy), settle, hold/release replication per replica, "
                    "crash (with a current or stale HW checkpoint) and restart of any replica with log reconciliation, ISR shrink/expand (also while behind), elections from the ISR (followers or leader applying the change first, "
-                   "old leader crashed or deposed alive), servers that lag in applying metadata (a leader that has not learned it was replaced keeps accepting publishes and serving replication), seven directed templates (double failovers, an empty term, a replica away across a failover that is elected later, a deposed-but-alive leader answering requests meant for its successor, a leader two leader changes behind, a follower that keeps fetching with an old leader epoch); replication, truncation, leader-offset requests, epoch caches and commit are the real code, the harness plays the Raft log through the real Server.apply. "
+                   "old leader crashed or deposed alive), servers that lag in applying metadata (a leader that has not learned it was replaced keeps accepting publishes and serving replication), eight directed templates (double failovers, an empty term, a replica away across a failover that is elected later, a deposed-but-alive leader answering requests meant for its successor, a leader two leader changes behind, a follower that keeps fetching with an old leader epoch); replication, truncation, leader-offset requests, epoch caches and commit are the real code, the harness plays the Raft log through the real Server.apply. "
                    "After every step: each replica's log is contiguous with non-decreasing epochs, HW never moves back within an incarnation, any two replicas agree on every offset at or below both HWs, "
                    "every ALL-acknowledged message is served unchanged at its offset by every later leader, no offset is acknowledged for two messages. Unit C02c: a started 3-server cluster in which elections, ISR shrinks and expansions are decided by the real code (follower reports, controller quorum, replicator lag detection); the harness publishes (LEADER/ALL), stops the partition leader or a follower (up to three times per history), waits and starts it again; same invariants after every step and at quiescence (all replicas identical up to HW = end)"),
     "level_note": "metadata operations are delivered by the harness, not by hashicorp/raft (elections always pick from the recorded ISR, as the controller does); one known finding (HW-truncation fallback, issue #38) is excluded by construction and counted: a follower never restarts while no leader is reachable, and followers never apply a leader change before the new leader does; in C02c, where the real Raft decides the order, a case is excluded (and counted) as soon as a server logs the HW-truncation fallback",
-    "rule": "rapid draws 4-30 steps or one of seven directed templates. Non-trivial = at least one leader change after a committed publish; labels count two leader changes, stale HW checkpoints, rejoin with an uncommitted tail, leaders deposed alive, expands while behind. C02c: 5-30 operations, 12 histories in quick; non-trivial = at least one server was stopped after an ALL-acknowledged publish and the case was not excluded.",
+    "rule": "rapid draws 4-30 steps or one of eight directed templates. Non-trivial = at least one leader change after a committed publish; labels count two leader changes, stale HW checkpoints, rejoin with an uncommitted tail, leaders deposed alive, expands while behind. C02c: 5-30 operations, 12 histories in quick; non-trivial = at least one server was stopped after an ALL-acknowledged publish and the case was not excluded.",
     "assumptions": TRUST,
     "units": [
         {"name": "C02", "pkg": "server", "test": "TestVerifC02",
